@@ -899,6 +899,8 @@ def run_leg2(ctx, known, stats):
                 if not eof:
                     lines, rest, eof = read_lines(sk, want - len(got)) if want > len(got) else ([], b"", False)
                     got += lines
+                if (pm["end"] or {}).get("rc") in ("A", "D"):
+                    break       # the conversation is over: anything sent now would be message data (or is never read)
             # final comparison against the model on the complete input
             ch = challenges(b"".join(l + b"\r\n" for l in got))
             cookies = {}
